@@ -66,6 +66,13 @@ def run(ctx):
         else:
             if a != wv:
                 bad = wv
+                if op in ('disp', 'dbg') and a.startswith('ok x:') and wv.startswith('ok x:'):
+                    # a value without a constant: any numeric fallback that contains the value (decimal or hex) is acceptable
+                    t, v = ln.split(' ')[1], int(ln.split(' ')[2])
+                    txt = bytes.fromhex(a[5:]).decode(errors='replace')
+                    named = set(iana.IANA.get(t, {}))
+                    if v not in iana.IANA.get(t, {}).values() and txt not in named and (str(v) in txt or ('%x' % v) in txt.lower()):
+                        bad = None
             if op in ('disp', 'dbg') and not a.endswith('29') :
                 ctx.distinct.add((op, ln.split(' ')[1], 'name' if len(a) < 60 and b'(' not in bytes.fromhex(a[5:]) else 'fallback'))
         if bad:
